@@ -513,6 +513,9 @@ class WebSocketReader:
 
             if self._state == READ_PAYLOAD:
                 chunk_len = data_len - start_pos
+                if chunk_len == 0 and self._payload_bytes_to_read != 0:
+                    # No payload bytes yet, do not keep an empty fragment.
+                    break
                 if self._payload_bytes_to_read >= chunk_len:
                     f_end_pos = data_len
                     self._payload_bytes_to_read -= chunk_len
